@@ -23,6 +23,7 @@ def resolveHere (c : BI) (b : Block) (k : Nat) : Option Instr :=
   | .label _ bp => if k ∈ b.breaks then some (Instr.jump (CS.rel bp k)) else none
   | .scope n => if k ∈ b.breaks then some (Instr.leaveBlock n) else none
   | .iscope => if k ∈ b.breaks then some (Instr.leaveBlock 1) else none
+  | .switch_ bp => if k ∈ b.breaks then some (Instr.jump (CS.rel bp k)) else none
   | .try_ => none
   | .with_ => none
 
@@ -48,6 +49,7 @@ def MatchB (c : BI) (b : Block) : Prop :=
   | .scope _ => b.typ = BT.scope ∧ b.label = none ∧ b.conts = []
   | .with_ => b.typ = BT.with_ ∧ b.label = none ∧ b.breaks = [] ∧ b.conts = []
   | .iscope => b.typ = BT.iterScope ∧ b.label = none ∧ b.conts = []
+  | .switch_ _ => b.typ = BT.switch_ ∧ b.label = none ∧ b.conts = []
 
 def Match : List BI → List Block → Prop
   | [], [] => True
@@ -196,6 +198,7 @@ def LeaveOK (c : BI) (sz : Nat) (b : Block) : Prop :=
   | .label _ bp => bp = sz
   | .scope _ => b.breaks = []
   | .iscope => b.breaks = []
+  | .switch_ bp => bp = sz
   | _ => True
 
 /-- compiler.go:340 leaveBlock: patching the head block's placeholders = dropping the head of `ctx` -/
@@ -254,6 +257,15 @@ theorem RL_leaveBlock {c : BI} {ctx : List BI} {cs : CS} {b : Block} {r : List B
       have hbr : b.breaks = [] := hc
       simp only [CS.leaveBlock, hb, ht, resolveHere, hbr]
       simp
+    | switch_ bp =>
+      have hc1 : bp = cs.code.size := hc
+      have ht : b.typ = BT.switch_ := hm2.1
+      simp only [CS.leaveBlock, hb, ht, resolveHere, CS.size, hc1]
+      simp only [reduceCtorEq, or_self, if_false]
+      rw [foldl_set_getElem?]
+      by_cases h2 : k ∈ b.breaks
+      · simp [h2, hk]
+      · simp [h2]
 
 theorem pendAll_tail {b : Block} {r : List Block} {k : Nat} (h : k ∈ pendAll r) : k ∈ pendAll (b :: r) := by
   simp only [pendAll, List.flatMap_cons, List.mem_append]; right; exact h
@@ -609,6 +621,7 @@ theorem BranchOK.here {c : BI} {ctx : List BI} {b : Block} {rest : List Block} {
     (hc : match c with
           | .loop _ bp cp => tgt = (if isBreak then bp else cp)
           | .label _ bp => isBreak = true ∧ tgt = bp
+          | .switch_ bp => isBreak = true ∧ tgt = bp
           | _ => False) :
     BranchOK (c :: ctx) (b :: rest) code [] tgt
       { code := code.push Instr.nop,
@@ -630,6 +643,10 @@ theorem BranchOK.here {c : BI} {ctx : List BI} {b : Block} {rest : List Block} {
     | scope n => exact hc.elim
     | with_ => exact hc.elim
     | iscope => exact hc.elim
+    | switch_ bp =>
+      have hib : isBreak = true := hc.1
+      subst hib
+      exact ⟨h1, h2⟩
   · intro k hk
     rcases mem_pendAll_cons.1 hk with hk | hk
     · cases isBreak with
@@ -687,6 +704,10 @@ theorem BranchOK.here {c : BI} {ctx : List BI} {b : Block} {rest : List Block} {
     | scope n => exact hc.elim
     | with_ => exact hc.elim
     | iscope => exact hc.elim
+    | switch_ bp =>
+      have hib : isBreak = true := hc.1
+      subst hib
+      simp [resolveHere, hc.2]
 
 theorem matchB_typ_ne_iter {c : BI} {b : Block} (h : MatchB c b) (hc : c ≠ BI.iscope) : b.typ ≠ BT.iterScope := by
   obtain ⟨_, h2⟩ := h
@@ -875,6 +896,37 @@ theorem branch_walk (l : Option Label) (isBreak : Bool) :
             (fun k hk => by simp [resolveHere, hk])
             (by simp [resolveHere]) rfl hok
 
+      | switch_ bp =>
+        obtain ⟨_, hty, hlab, hco⟩ := hmb
+        simp only [findBrk] at hf
+        by_cases hhit : (isBreak && l.isNone) = true
+        · simp only [hhit, if_true, Option.some.injEq, Prod.mk.injEq] at hf
+          obtain ⟨hex, htg⟩ := hf
+          subst hex
+          have hib : isBreak = true := by simp at hhit; exact hhit.1
+          have hl : l = none := by simp at hhit; exact hhit.2
+          subst hib; subst hl
+          refine ⟨rest.length, by simp, ?_, fun h => by simp at h, ?_⟩
+          · rw [fbb_cons none true b rest hbk]; simp [tgtB, hty]
+          · rw [branchF_here]
+            exact BranchOK.here (c := BI.switch_ bp) ⟨hbk, hty, hlab, hco⟩ hmr hp ⟨rfl, htg.symm⟩
+        · have hhit' : (isBreak && l.isNone) = false := by
+            cases h : (isBreak && l.isNone) with
+            | false => rfl
+            | true => exact absurd h hhit
+          simp only [hhit', Bool.false_eq_true, if_false] at hf
+          have htb : tgtB l isBreak b = false := by
+            cases l with
+            | none =>
+              have : isBreak = false := by simpa using hhit'
+              simp [tgtB, hty, this]
+            | some x => simp [tgtB, hlab]
+          obtain ⟨t, ht, hfb, hne, htyp, _, hok⟩ := pass htb code ex hrestp hf
+          refine ⟨t, ht, hfb, htyp, ?_⟩
+          rw [branchF_cons t isBreak (!isBreak) b rest code hne (fun h => by simp [hty] at h)]
+          have hs : stepB b code = (b, code) := by simp [stepB, hty]
+          rw [hs]
+          exact BranchOK.lift0 (c := BI.switch_ bp) ⟨hbk, hty, hlab, hco⟩ hp hok
       | iscope =>
         obtain ⟨_, hty, hlab, hco⟩ := hmb
         simp only [findBrk] at hf
@@ -919,6 +971,7 @@ theorem branch_walk (l : Option Label) (isBreak : Bool) :
                   | scope _ => simp [hitsHead] at hstop
                   | with_ => simp [hitsHead] at hstop
                   | iscope => simp [hitsHead] at hstop
+                  | switch_ _ => simp [hitsHead] at hstop
             refine ⟨t, ht, hfb, htyp, ?_⟩
             rw [show (!false) = true from rfl, branchF_stop t false b rest code hty hlen]
             exact BranchOK.lift0 (c := BI.iscope) ⟨hbk, hty, hlab, hco⟩ hp hok
@@ -965,6 +1018,7 @@ theorem branch_walk (l : Option Label) (isBreak : Bool) :
                     | scope n => obtain ⟨_, hty1, hlab1, _⟩ := hm1; cases l <;> simp [tgtB, hty1, hlab1] at htb1
                     | with_ => obtain ⟨_, hty1, hlab1, _⟩ := hm1; cases l <;> simp [tgtB, hty1, hlab1] at htb1
                     | iscope => obtain ⟨_, hty1, hlab1, _⟩ := hm1; cases l <;> simp [tgtB, hty1, hlab1] at htb1
+                    | switch_ _ => obtain ⟨_, hty1, hlab1, _⟩ := hm1; cases l <;> simp [tgtB, hty1, hlab1] at htb1
                   · simp only [htb1, Bool.false_eq_true, if_false] at hfbr
                     have := fbb_lt l false r ctx1 hmr1 hfbr
                     omega
@@ -1084,6 +1138,9 @@ theorem EqR.branch {ctx : List BI} {cs : CS} (l : Option Label) (isBreak : Bool)
     EqR ctx cs (compileBranch l isBreak cs) (ex ++ [Instr.jump (CS.rel tgt (cs.code.size + ex.length))]) := by
   obtain ⟨h1, h2, h3, h4⟩ := RL_branch l isBreak hi hf
   exact ⟨by rw [h1, List.append_assoc], h2, h3, h4⟩
+
+theorem EqR.snoc {ctx : List BI} {cs cs' : CS} {G : List Instr} (h : EqR ctx cs cs' G) (i : Instr) :
+    EqR ctx cs (cs'.emit i) (G ++ [i]) := h.trans (EqR.emit h.inv i)
 
 theorem set_mid (A B : List Instr) (x y : Instr) : (A ++ y :: B).set A.length x = A ++ x :: B := by
   induction A with
@@ -1295,6 +1352,10 @@ theorem returnExits_eq {ctx : List BI} {blocks : List Block} (hm : Match ctx blo
         exact ih hmr _
       | iscope =>
         have ht : b.typ = BT.iterScope := hmb.1
+        simp only [returnExits, ht, retExitsS]
+        exact ih hmr _
+      | switch_ bp =>
+        have ht : b.typ = BT.switch_ := hmb.1
         simp only [returnExits, ht, retExitsS]
         exact ih hmr _
 
@@ -1978,7 +2039,113 @@ theorem cf_eq (s : Stmt) : ∀ (cur : Nat) (lab : Option Label) (ctx : List BI) 
         show _ = _
         rw [P1.size]; simp [gen_length, BI.shape])
       simpa [CS.push] using L
-  | sw u k a b _ _ => intro cur lab ctx cs hst; simp [stage1] at hst
+  | sw u k a b iha ihb =>
+    intro cur lab ctx cs hst _ hi hnop
+    simp only [stage1, Bool.and_eq_true] at hst
+    obtain ⟨hsa, hsb⟩ := hst
+    simp only [gen] at hnop ⊢
+    generalize hla : glen a none (BS.switch_ :: ctx.map BI.shape) = la at *
+    generalize hlb : glen b none (BS.switch_ :: ctx.map BI.shape) = lb at *
+    have hna : Instr.nop ∉ gen a cur none (BI.switch_ (cs.code.size + 15 + la + lb) :: ctx) (cs.code.size + 15) :=
+      fun h => hnop (by simp [h])
+    have hnb : Instr.nop ∉ gen b cur none (BI.switch_ (cs.code.size + 15 + la + lb) :: ctx) (cs.code.size + 15 + la) :=
+      fun h => hnop (by simp [h])
+    let c : BI := BI.switch_ (cs.code.size + 15 + la + lb)
+    let cs1 := cs.push { typ := BT.switch_ }
+    have P0 : InR c ctx cs cs1 [] := InR.push hi ⟨rfl, rfl, rfl, rfl⟩ rfl rfl
+    let cs2 := cs1.emit (Instr.loadSel u k cur)
+    let cs3 := ((((cs2.emit Instr.dup).emit (Instr.loadVal 0)).emit Instr.strictEq).emit (Instr.jneP 3)).emit Instr.pop
+    let cs4 := cs3.emit Instr.nop
+    let cs5 := ((((cs4.emit Instr.dup).emit (Instr.loadVal 1)).emit Instr.strictEq).emit (Instr.jneP 3)).emit Instr.pop
+    let cs6 := cs5.emit Instr.nop
+    let cs7 := cs6.emit Instr.pop
+    let cs8 := cs7.emit Instr.nop
+    have E15 : EqR (c :: ctx) cs1 cs8 [Instr.loadSel u k cur,
+        Instr.dup, Instr.loadVal 0, Instr.strictEq, Instr.jneP 3, Instr.pop, Instr.nop,
+        Instr.dup, Instr.loadVal 1, Instr.strictEq, Instr.jneP 3, Instr.pop, Instr.nop,
+        Instr.pop, Instr.nop] := by
+      have h0 := EqR.refl (ctx := c :: ctx) P0.inv
+      have h1 := h0.snoc (Instr.loadSel u k cur)
+      have h2 := h1.snoc Instr.dup
+      have h3 := h2.snoc (Instr.loadVal 0)
+      have h4 := h3.snoc Instr.strictEq
+      have h5 := h4.snoc (Instr.jneP 3)
+      have h6 := h5.snoc Instr.pop
+      have h7 := h6.snoc Instr.nop
+      have h8 := h7.snoc Instr.dup
+      have h9 := h8.snoc (Instr.loadVal 1)
+      have h10 := h9.snoc Instr.strictEq
+      have h11 := h10.snoc (Instr.jneP 3)
+      have h12 := h11.snoc Instr.pop
+      have h13 := h12.snoc Instr.nop
+      have h14 := h13.snoc Instr.pop
+      have h15 := h14.snoc Instr.nop
+      have h := h15
+      simpa using h
+    have P1 := P0.step E15
+    have e3 : cs3.size = cs.code.size + 6 := by simp [cs3, cs2, cs1, CS.emit, CS.push, CS.size]
+    have e5 : cs5.size = cs.code.size + 12 := by simp [cs5, cs4, cs3, cs2, cs1, CS.emit, CS.push, CS.size]
+    have e7 : cs7.size = cs.code.size + 14 := by simp [cs7, cs6, cs5, cs4, cs3, cs2, cs1, CS.emit, CS.push, CS.size]
+    have hs8 : cs8.code.size = cs.code.size + 15 := by rw [P1.size]; rfl
+    have hb8 : cs8.blocks = { typ := BT.switch_ } :: cs.blocks := rfl
+    have hp8 : ∀ k, k ∈ pendAll cs8.blocks → k < cs.code.size := by
+      intro k hk
+      rw [hb8] at hk
+      exact hi.p k (by simpa [pendAll, List.flatMap_cons] using hk)
+    have P2 := InR.patch (A := [Instr.loadSel u k cur, Instr.dup, Instr.loadVal 0, Instr.strictEq, Instr.jneP 3, Instr.pop])
+      (y := Instr.nop) (Instr.jump (CS.rel cs8.size cs3.size)) (q := cs3.size)
+      (by simpa using P1) (by rw [e3]; rfl) (fun h => by have := hp8 _ h; rw [e3] at this; omega)
+    let cs9 := cs8.patch cs3.size (Instr.jump (CS.rel cs8.size cs3.size))
+    have hs9 : cs9.code.size = cs.code.size + 15 := by simp [cs9, CS.patch, hs8]
+    have A0 := iha cur none (c :: ctx) cs9 hsa (fun _ => rfl) P2.inv (by rw [hs9]; exact hna)
+    rw [hs9] at A0
+    let cs10 := compileCF cur none a cs9
+    have hs10 : cs10.code.size = cs.code.size + 15 + la := by
+      rw [A0.size, hs9, gen_length]; simp only [List.map_cons, BI.shape, c, hla]
+    have P3 := P2.step A0
+    have hf10 : ∀ q, q < cs.code.size + 15 → cs.code.size ≤ q → q ∉ pendAll cs10.blocks := by
+      intro q hq1 hq2
+      apply fresh_of_new (bs0 := cs9.blocks) (n := cs.code.size + 15) (q := q)
+      · intro k hk; have := hp8 k hk; omega
+      · exact hq1
+      · intro k hk
+        rcases A0.new k hk with h | h
+        · exact Or.inl h
+        · exact Or.inr (by rw [hs9] at h; exact h)
+    have P4 := InR.patch (A := [Instr.loadSel u k cur, Instr.dup, Instr.loadVal 0, Instr.strictEq, Instr.jneP 3, Instr.pop,
+        Instr.jump (CS.rel cs8.size cs3.size), Instr.dup, Instr.loadVal 1, Instr.strictEq, Instr.jneP 3, Instr.pop])
+      (y := Instr.nop) (Instr.jump (CS.rel cs10.size cs5.size)) (q := cs5.size)
+      (by simpa using P3) (by rw [e5]; rfl) (by rw [e5]; exact hf10 _ (by omega) (by omega))
+    let cs11 := cs10.patch cs5.size (Instr.jump (CS.rel cs10.size cs5.size))
+    have hs11 : cs11.code.size = cs.code.size + 15 + la := by simp [cs11, CS.patch, hs10]
+    have B0 := ihb cur none (c :: ctx) cs11 hsb (fun _ => rfl) P4.inv (by rw [hs11]; exact hnb)
+    rw [hs11] at B0
+    let cs12 := compileCF cur none b cs11
+    have hs12 : cs12.code.size = cs.code.size + 15 + la + lb := by
+      rw [B0.size, hs11, gen_length]; simp only [List.map_cons, BI.shape, c, hlb]
+    have P5 := P4.step B0
+    have hf12 : cs.code.size + 14 ∉ pendAll cs12.blocks := by
+      intro hq
+      rcases B0.new _ hq with h | h
+      · exact hf10 _ (by omega) (by omega) h
+      · rw [hs11] at h; omega
+    have P6 := InR.patch (A := [Instr.loadSel u k cur, Instr.dup, Instr.loadVal 0, Instr.strictEq, Instr.jneP 3, Instr.pop,
+        Instr.jump (CS.rel cs8.size cs3.size), Instr.dup, Instr.loadVal 1, Instr.strictEq, Instr.jneP 3, Instr.pop,
+        Instr.jump (CS.rel cs10.size cs5.size), Instr.pop])
+      (y := Instr.nop) (Instr.jump (CS.rel cs12.size cs7.size)) (q := cs7.size)
+      (by simpa using P5) (by rw [e7]; rfl) (by rw [e7]; exact hf12)
+    have L := P6.leave (fun b' r hb' => by
+      show cs.code.size + 15 + la + lb = (cs12.patch _ _).code.size
+      simp only [CS.patch, Array.size_setIfInBounds]; exact hs12.symm)
+    have hstate : compileCF cur lab (Stmt.sw u k a b) cs
+        = (cs12.patch cs7.size (Instr.jump (CS.rel cs12.size cs7.size))).leaveBlock := rfl
+    rw [hstate]
+    have e8 : cs8.size = cs.code.size + 15 := hs8
+    have e10 : cs10.size = cs.code.size + 15 + la := hs10
+    have e12 : cs12.size = cs.code.size + 15 + la + lb := hs12
+    refine L.congrG ?_
+    rw [e8, e10, e12, e3, e5, e7]
+    simp [c, Nat.add_assoc]
   | withS s ih =>
     intro cur lab ctx cs hst _ hi hnop
     simp only [stage1] at hst
